@@ -503,7 +503,7 @@ func init() {
 		rec.Rule = "mcrew Timers, in-package, the harness is the emitter: scenarios of 3-12 make / cancel / sleep / quiesce requests over ids {x,y} with delays 2-20 ms and 10 s; a make may carry requests that the handler of its firing issues (on the firing id itself - re-create, cancel+re-create - and on the other id), nested up to 2 deep; an online monitor checks per timer: fired at most once, not before clock-before-request + delay, never after a cancel that had returned, duplicate ids rejected only while pending, a fired id reusable from inside its handler, a re-created timer cancellable; at quiescent points the live pending map and the MarshalJSON report must equal accepted - fired - cancelled; plus racing requester goroutines; under -race; sio part: see the sio batch; non-trivial = scenario in which a timer fired; distinct by scenario"
 		rec.Required = []string{"fired", "cancelled", "accepted", "rejected_duplicate", "recreated_in_handler_of_same_id", "cancelled_from_handler", "quiescent_points_compared", "racing_scenarios", "make_inside_firing_handler_same_id", "cancel_inside_firing_handler_same_id"}
 		rec.Assume = []string{"'never early' compares the clock read before the request plus the delay with the clock read at handler entry (cannot be late)", "bounded progress: a short timer must have fired within 30 s of its due time"}
-		n := cfg.Pick(250, 3000)
+		n := cfg.Pick(250, 8000)
 		fw.Parallel(8, n, func(w, i int) { c17Scenario(cfg, rec, i) })
 		for i := 0; i < cfg.Pick(10, 80); i++ {
 			c17Racing(cfg, rec, i)
